@@ -342,6 +342,44 @@ func (e *env) runTopo(c *Case, res *caseResult) {
 			}
 		}
 	}
+	// the layer below first: the own prefixes of every set, loaded the same way
+	// into a plain list outside any plugin. If that is already wrong the finding
+	// belongs to the single-set layers, not to the cooperation of several plugins.
+	for _, nd := range c.Topo {
+		if len(nd.IPs)+len(nd.File) == 0 {
+			continue
+		}
+		var own []rule
+		var ips []string
+		for _, ix := range nd.IPs {
+			own, ips = append(own, c.Items[ix].r), append(ips, c.Items[ix].Text)
+		}
+		for _, ix := range nd.File {
+			own = append(own, c.Items[ix].r)
+		}
+		l := netlist.NewList()
+		err := ip_set.LoadFromIPs(ips, l)
+		if err == nil && len(nd.File) > 0 {
+			err = netlist.LoadFromReader(l, strings.NewReader(readerText(c, nd.File, 0, len(nd.File), !c.NoFinalNL)))
+		}
+		if err != nil {
+			res.loadErrs = append(res.loadErrs, fmt.Sprintf("ipset/LoadFromIPs+LoadFromReader rejected well-formed input: %v", err))
+			return
+		}
+		l.Sort()
+		for _, q := range qs {
+			if want := oracleContains(own, c.Probes[q.probe].a); l.Match(q.addr) != want {
+				kind := "false-negative"
+				if !want {
+					kind = "false-positive"
+				}
+				res.findings = append(res.findings, finding{"ipset", "ipset-" + kind,
+					fmt.Sprintf("ipset (LoadFromIPs + LoadFromReader into one plain list, before building a plugin topology): Match(%v) [probe role %s] = %v, but the loaded prefixes %s cover it: %v",
+						q.addr, c.Probes[q.probe].Role, !want, showRules(own, 12), want)})
+				return
+			}
+		}
+	}
 	provs := make([]data_provider.IPMatcherProvider, len(c.Topo))
 	okAtBuild := make([]bool, len(c.Topo))
 	firstRef := map[string]int{}
